@@ -131,7 +131,7 @@ class Builder:
                 ref = copy.deepcopy(cdesc)
                 integrated_deps[name] = copy.deepcopy(cdesc)
             else:
-                path = self._file(creator(copy.deepcopy(cdesc)), f"dep_{level}_{k}_{name.strip('#')}.suit")
+                path = self._file(creator(copy.deepcopy(cdesc)), f"dep_{self.n}_{level}_{k}_{name.strip('#')}.suit")
                 ref = path
                 integrated_deps[name] = path
             validate += [{"suit-directive-set-component-index": idx},
